@@ -2,6 +2,8 @@ package main
 
 import (
 	"fmt"
+	"io"
+	"log/slog"
 	"math"
 	"math/rand"
 	"net"
@@ -195,6 +197,8 @@ type runOpts struct {
 	prom       bool
 	validator  string
 	viaManager bool
+	debugLog   bool // a DEBUG-level logger (output discarded) is handed to the handler and installed as slog default (-verbose)
+	v6         bool // the listener is a dual-stack [::] socket and client 3 is [::1]
 }
 
 func newRun(w *world, tr *hx.Trace, rng *rand.Rand, withProm bool) *run {
@@ -224,15 +228,24 @@ func newRunOpts(w *world, tr *hx.Trace, rng *rand.Rand, o runOpts) *run {
 	if o.validator != "default" {
 		ph.SetTargetIPValidator(loopbackOK)
 	}
+	if o.debugLog {
+		dl := slog.New(slog.NewTextHandler(io.Discard, &slog.HandlerOptions{Level: slog.LevelDebug}))
+		ph.SetLogger(dl)
+		slog.SetDefault(dl)
+	}
+	laddr, lnet := "0.0.0.0:0", "udp4"
+	if o.v6 {
+		laddr, lnet = "[::]:0", "udp"
+	}
 	var lc net.PacketConn
 	if o.viaManager {
-		pc, err := service.NewListenerManager().ListenPacket("0.0.0.0:0")
+		pc, err := service.NewListenerManager().ListenPacket(laddr)
 		if err != nil {
 			hx.Fatal("ListenerManager.ListenPacket: %v", err)
 		}
 		lc = pc
 	} else {
-		uc, err := listenUDP("udp4", "0.0.0.0:0")
+		uc, err := listenUDP(lnet, laddr)
 		if err != nil {
 			hx.Fatal("listen: %v", err)
 		}
@@ -252,7 +265,11 @@ func newRunOpts(w *world, tr *hx.Trace, rng *rand.Rand, o runOpts) *run {
 		caddr[4] = "127.0.0.4:0"
 	}
 	for c, a := range caddr {
-		s, err := newSock(c, fmt.Sprintf("client%d", c), "udp4", a)
+		cnet := "udp4"
+		if o.v6 && c == 3 {
+			cnet, a = "udp6", "[::1]:0"
+		}
+		s, err := newSock(c, fmt.Sprintf("client%d", c), cnet, a)
 		if err != nil {
 			hx.Fatal("client socket: %v", err)
 		}
@@ -269,6 +286,9 @@ func newRunOpts(w *world, tr *hx.Trace, rng *rand.Rand, o runOpts) *run {
 func (r *run) listenerAddrFor(c *sock) *net.UDPAddr {
 	port := r.lport
 	ip := c.addr.IP
+	if ip.To4() == nil {
+		return &net.UDPAddr{IP: net.IPv6loopback, Port: port}
+	}
 	if ip.IsLoopback() {
 		ip = net.IPv4(127, 0, 0, 1)
 	}
